@@ -222,6 +222,7 @@ PROPS["C06"]["tasks"] = PROPS["C06"]["tasks"] + ["IndexMarket.get_index", "Index
 PROPS["C11"]["tasks"] = PROPS["C11"]["tasks"] + ["Simulator._update_agents_for_execution"]
 PROPS["C14"]["tasks"] = PROPS["C14"]["tasks"] + ["Fundamentals.get_fundamental_price", "census:callers[fundamentals]"]
 PROPS["C14"]["bounded"] = list(PROPS["C14"].get("bounded") or []) + list(PROPS["C12"]["bounded"])
+PROPS["C16"]["tasks"] = PROPS["C16"]["tasks"] + ["Market._execute_orders", "Market._update_market_price"]      # the halt line is tested against the market price a fill leaves behind
 from .census import CALLERS as _CALLERS
 for _g, (_ps, _r, _t) in _CALLERS.items():
     for _p in _ps:
